@@ -85,6 +85,8 @@ impl State {
         let mut active_counters = 0;
 
         for (key, counter) in counters {
+            #[cfg(metrics_verif)]
+            crate::verif::note_counter_visit(&key);
             let (value, points_flushed) = counter.flush();
 
             // If the counter is already idle, and its value did not change since the last time the counter was flushed,
